@@ -38,6 +38,17 @@ type c01Op struct {
 	CopyLen  int  `json:"copy_len,omitempty"`
 }
 
+// c01LongTags stretches, for some of the generated tag sets, the first tag to the largest legal lengths
+// (key 128, value 256 characters): what PutObjectTagging acknowledged must read back unshortened whatever
+// the metadata store (xattr, sidecar) does with long values. No random draw: derived from the drawn value.
+func c01LongTags(t []s3c.Tag) []s3c.Tag {
+	if len(t) > 0 && strings.HasPrefix(t[0].Value, "v7") {
+		t[0].Key += strings.Repeat("k", 128-len(t[0].Key))
+		t[0].Value += strings.Repeat("w", 256-len(t[0].Value))
+	}
+	return t
+}
+
 // c01TagHeader spells the x-amz-tagging header: spaces as %20 or, for every other data seed, as "+".
 func c01TagHeader(op c01Op) string {
 	if op.DataSeed%2 == 1 {
@@ -197,7 +208,7 @@ func (c01) Gen(seed uint64, run int, tier string) *core.Case {
 			written[op.Key] = true
 		case x < 53:
 			op.Kind = "puttags"
-			op.Tags = genTags(r)
+			op.Tags = c01LongTags(genTags(r))
 		case x < 58:
 			op.Kind = "restart"
 		case x < 72:
@@ -586,8 +597,15 @@ func (c01) Exec(c *core.Case) (out *core.Outcome) {
 				continue
 			}
 			res := cl.Do(s3c.PutObjectTagging(bkt, key, op.Tags))
+			long := len(op.Tags) > 0 && len(op.Tags[0].Value) == 256
+			if long {
+				o.Probe("puttags_longest")
+			}
 			if res.Resp.OK() {
 				model[op.Key].Tags = op.Tags
+				if long {
+					o.Probe("puttags_longest_acknowledged")
+				}
 			}
 		case "get", "head":
 			want := model[op.Key]
